@@ -158,6 +158,18 @@ def _signed_check(v, t, what):
         raise UndefinedBehaviour('signed overflow in %s (%d does not fit %s)' % (what, v, t))
 
 
+def member_path(e):
+    """'n.u64' for this->(anonymous).n.(anonymous).u64 : dotted names of a member chain rooted at `this`"""
+    names = []
+    while e is not None and e.get('k') == 'member':
+        if e.get('name'):
+            names.append(e['name'])
+        e = strip(e.get('base'))
+    if e is None or e.get('k') != 'this' or not names:
+        return None
+    return '.'.join(reversed(names))
+
+
 class Interp:
     def __init__(self, fn, facts=None, call_hook=None, max_steps=2000):
         self.fn = fn
@@ -198,6 +210,12 @@ class Interp:
                 if e['name'] in members:
                     return members[e['name']]
                 raise Unsupported('unbound member %s' % e['name'])
+            path = member_path(e)
+            if path is not None:
+                if path in members:
+                    return members[path]
+                if e.get('cv') is None:
+                    raise Unsupported('unbound member %s' % path)
             if e.get('cv') is not None:
                 return int(e['cv'])
             raise Unsupported('member of %s' % show(b))
@@ -262,6 +280,11 @@ class Interp:
                 return abs(args[0])
             if name in ('_mm_loadu_si128', '_mm_load_si128', '_mm_lddqu_si128') and self.memory is not None:
                 return self.load(args[0], 16)
+            if e.get('ccls') == 'std::numeric_limits' and name in ('max', 'min', 'lowest') and not args:
+                w, sg = width(e.get('t'))
+                if name == 'max':
+                    return (1 << (w - 1)) - 1 if sg else (1 << w) - 1
+                return -(1 << (w - 1)) if sg else 0
             if name in SSE:
                 return SSE[name](args)
             if name in BUILTINS:
